@@ -140,7 +140,10 @@ pub open spec fn params_post(possible: Seq<FunctionArg>, act: Seq<(Position, Exp
 //@@> let ghost args0: Seq<AST> = args@;
 //@@ HINT after
 //@@< let args = if let Some($sa) = self_arg { $$ } else { $$ };
-//@@> let ghost act = args@; assert(act =~= actuals(self_ast.pos, *self_arg, args0));
+//@@> let ghost act = args@;
+//@@ CLAIM after
+//@@< let args = if let Some($sa) = self_arg { $$ } else { $$ };
+//@@> assert(act =~= actuals(self_ast.pos, *self_arg, args0));  //# actual_arguments_are_self_then_the_arguments_in_order [C05]
 //@@ HINT before
 //@@< for either_or_both in
 //@@> let ghost mut n_done: int = 0;
